@@ -123,5 +123,8 @@ pub fn run_b(ctx: &mut Ctx) -> RunResult {
 }
 
 pub fn run(ctx: &mut Ctx) -> RunResult {
-    run_b(ctx)
+    match ctx.ch.weighted("cfg.world", &[4, 1]) {
+        0 => run_b(ctx),
+        _ => crate::worlds::c::run_c03_handshake(ctx),
+    }
 }
